@@ -18,13 +18,16 @@ ID = "C17"
 LEVEL = "model_checking"
 TIER = "quick"
 EPS = ""
+# characters with a singleton canonical decomposition next to their normal forms: U+212B ANGSTROM / U+00C5,
+# U+212A KELVIN / K, U+2126 OHM / U+03A9 - distinct characters with distinct encodings (no normalisation)
+NFC_CHARS = ["\u212b", "\u00c5", "\u212a", "K", "\u2126", "\u03a9"]
 MB = ["a", "é", "ü", "€", "👋", "𐐀", "₂"]  # 1, 2, 2 (same first byte), 3, 4 bytes; U+10400 = f0 90 90 80 and U+2082 = e2 82 82 repeat a continuation byte
 
 
 def cfgp():
     if TIER == "thorough":
-        return dict(D=6, cfg_space=(2, ["a", "b", EPS], 4), byte_spaces=[(2, ["a", "é", "ü", EPS], 3), (2, ["é", "€", "👋", EPS], 2), (1, ["a", "é", "ü", "€", "👋", "𐐀", "₂", EPS], 2), (2, ["𐐀", "₂", "é", EPS], 2)], merge_arcs=2, gdepth=3)
-    return dict(D=5, cfg_space=(2, ["a", "b", EPS], 3), byte_spaces=[(2, ["a", "é", "ü", EPS], 2), (1, ["a", "é", "ü", "€", "👋", "𐐀", "₂", EPS], 2)], merge_arcs=2, gdepth=2)
+        return dict(D=6, cfg_space=(2, ["a", "b", EPS], 4), byte_spaces=[(2, ["a", "é", "ü", EPS], 3), (2, ["é", "€", "👋", EPS], 2), (1, ["a", "é", "ü", "€", "👋", "𐐀", "₂", EPS], 2), (2, ["𐐀", "₂", "é", EPS], 2), (1, NFC_CHARS + [EPS], 3)], merge_arcs=2, gdepth=3)
+    return dict(D=5, cfg_space=(2, ["a", "b", EPS], 3), byte_spaces=[(2, ["a", "é", "ü", EPS], 2), (1, ["a", "é", "ü", "€", "👋", "𐐀", "₂", EPS], 2), (1, NFC_CHARS + [EPS], 2)], merge_arcs=2, gdepth=2)
 
 
 def init_worker(tier):
